@@ -162,7 +162,11 @@ static std::string op_step(const std::vector<std::string>& w) {
     const bloom_filter& f = V(w[1]);
     const int d = atoi(w[2].c_str());
     auto it = views.find(d);
-    if (it != views.end() && it->second) *it->second = f;      // the target exists: COPY ASSIGNMENT into a live filter
+    static unsigned n_assign = 0;
+    if (it != views.end() && it->second) {                      // the target exists: ASSIGNMENT into a live filter,
+      if (++n_assign % 2) *it->second = f;                      // alternately copy assignment
+      else { bloom_filter tmp(f); *it->second = std::move(tmp); }   // and move assignment (from a temporary copy: the source stays usable)
+    }
     else put_view(d, new bloom_filter(f));                      // copy construction
     return "ok";
   }
